@@ -33,6 +33,16 @@ _SRV_ASSUME = [
 ]
 
 PROPS = {
+    'C02': dict(
+        mods=[], k1=[], level='proof', engines=['contracts.c02_grouping'],
+        harness='verif/native/c02_harness.py', harness_budget=(15, 90),
+        explanation='K2: the real constructor and term() of every operator class of operators.py (27 classes) and every Python operator '
+                    'overload of Operator/Element are executed symbolically over templates for every combination of operand kinds '
+                    '(element, arbitrary operator, positive / negative number); obligations: the emitted text denotes Spec(class) with '
+                    'every operand read at the requested time (z3 over the reals via the CPython AST), and every operand hole keeps any '
+                    'text the operand contract allows as a unit (14 expression shapes)',
+        assumptions=[],
+        not_decided=['not decided: arrayed operands (C10); statistical / random functions; float association and rounding (semantic equality is over the reals)']),
     'C15': dict(
         mods=['contracts.c15_c18_server'], k1=K1_C15, level='proof', engines=['contracts.c15_routes'],
         harness='verif/native/c15_harness.py', harness_budget=(60, 120),
